@@ -7,11 +7,12 @@ VERIF = os.path.dirname(os.path.dirname(os.path.abspath(__file__)))
 
 CLAIMED = {
     'C18': dict(
-        technique='static analysis: dataflow of every tile-number return through clamp(), ORDERTYPE proof of clamp over all orderings, constant evaluation',
-        text='Decides ONLY the in-range clause and constants: every return of mercx_to_tilex/mercy_to_tiley comes from clamp(v, 0, num_tiles_in_zoom(zoom)-1) with v computed from the same '
-             'zoom; clamp is comparison-only and correct for all orderings; num_tiles = 1<<zoom; Tile constructors route the right axis through the right function; Tile::valid() predicate; '
-             'earth-radius / max-coordinate / max-latitude constants agree. NOT decided (numerical, outside this technique): accuracy of the latitude approximation, strict monotonicity, '
-             'projection round trip, double->int conversion at the poles, tile nesting across zooms.',
+        technique='static analysis: dataflow of every tile-number return through the clamp, ORDERTYPE/model-interpreter proof of the clamp over all order types incl. +-inf and NaN, constant evaluation',
+        text='Decides ONLY the in-range clause, the float->integer conversion guard and constants: the tile number returned by mercx_to_tilex/mercy_to_tiley is the clamp of the scaled '
+             'offset into [0, num_tiles_in_zoom(zoom)-1], every floating->integer conversion on the way is range-guarded in the floating domain (K6, found defect F22), num_tiles = 1<<zoom, '
+             'Tile constructors route the right axis through the right function and assert exactly zoom <= max_zoom; Tile::valid() predicate; 30 <= max_zoom <= 31; '
+             'earth-radius / max-coordinate / max-latitude / deg-rad factors agree bit for bit. NOT decided (numerical, outside this technique): accuracy of the latitude approximation, '
+             'strict monotonicity, projection round trip, tile nesting across zooms.',
         design='5/C18', note='narrow structural clause only; trusts clang constant folding'),
     'C19': dict(
         technique='static analysis: lockset + wake-up pairing dataflow on clang CFGs of every Queue<T> instantiation (custom libTooling extractor + Python rules)',
@@ -170,6 +171,19 @@ NOT_APPLICABLE = {
 ALL = ['C%02d' % i for i in range(1, 21)]
 
 
+def _rules_suffix(pid):
+    """the rule modules grew after the texts above were written: append the rules that the last run actually applied (from the evidence file)"""
+    import json as _j
+    try:
+        ev = _j.load(open(os.path.join(os.path.dirname(os.path.dirname(os.path.abspath(__file__))), 'evidence', pid + '.json')))
+        rules = sorted((ev.get('coverage') or {}).get('instances_per_rule') or {})
+    except Exception:  # noqa: BLE001
+        rules = []
+    if not rules:
+        return ''
+    return ' Structural clauses (rules) applied on the current tree, each a necessary condition of the property, not the behaviour itself: ' + ', '.join(rules) + '.'
+
+
 def main():
     checks = []
     for pid in ALL:
@@ -183,7 +197,7 @@ def main():
             'evidence_file': 'evidence/%s.json' % pid,
             'replay_cmd_template': './check %s --replay {path}' % pid,
             'engine': 'osmlint',
-            'level_claimed': {'category': 'other', 'text': c['text'], 'design_ref': c['design']},
+            'level_claimed': {'category': 'other', 'text': c['text'] + _rules_suffix(pid), 'design_ref': c['design']},
             'level_note': c['note'],
             'technique': c['technique'],
         })
